@@ -571,7 +571,7 @@ func genWidth(r *Rng) wWidth {
 		if r.Bool(1, 3) {
 			return wWidth{"xf", []int{375, 225, 377, 301}[r.Intn(4)], 2} // 187.5 112.5 188.5 150.5 px
 		}
-		return wWidth{"x", []int{100, 150, 200}[r.Intn(3)], 1}
+		return wWidth{"x", []int{100, 150, 200, 50, 25, 40}[r.Intn(6)], 1}
 	}
 	return wWidth{Kind: "a"}
 }
@@ -697,6 +697,13 @@ func widthDocs(tier string, seed int64) []*wDoc {
 			docs = append(docs, &wDoc{Body: body, Sec: plain, Items: two(wWidth{"p", 40, 1}, wWidth{"p", 60, 1})})
 			docs = append(docs, &wDoc{Body: body, Sec: plain, Items: two(wWidth{"p", 3333, 100}, wWidth{Kind: "a"})})
 			docs = append(docs, &wDoc{Body: body, Sec: plain, Items: two(wWidth{"x", 150, 1}, wWidth{Kind: "a"})})
+			// a pixel column and a percent column carrying the SAME number, in both orders (in a section and in a group): the
+			// unit belongs to the width
+			for _, n := range []int{50, 25, 40} {
+				docs = append(docs, &wDoc{Body: body, Sec: plain, Items: two(wWidth{"x", n, 1}, wWidth{"p", n, 1})})
+				docs = append(docs, &wDoc{Body: body, Sec: plain, Items: two(wWidth{"p", n, 1}, wWidth{"x", n, 1})})
+				docs = append(docs, &wDoc{Body: body, Sec: plain, Items: []wItem{{Group: &wWidth{Kind: "a"}, Cols: []wCol{{W: wWidth{"x", n, 1}, Leaf: wLeaf{Kind: leaf}}, {W: wWidth{"p", n, 1}, Leaf: wLeaf{Kind: leaf}}}}}})
+			}
 			docs = append(docs, &wDoc{Body: body, Sec: plain, Items: []wItem{{Group: &wWidth{Kind: "a"}, Cols: []wCol{{W: wWidth{"p", 25, 1}, Leaf: wLeaf{Kind: leaf}}, {W: wWidth{Kind: "a"}, Leaf: wLeaf{Kind: leaf}}}}}})
 		}
 	}
